@@ -33,6 +33,17 @@ type Violation struct {
 	Signature string      `json:"signature"` // stable id used for known-findings matching
 	Message   string      `json:"message"`
 	Witness   interface{} `json:"witness,omitempty"`
+	// EnvLimit marks a report raised after the case ran into a limit of the
+	// harness environment (capacity of the simulated device / address space):
+	// nothing can be concluded from it, the case counts as inconclusive.
+	EnvLimit bool `json:"env_limit,omitempty"`
+}
+
+// MarkEnvLimit flags the most recent violation as raised behind an environment limit.
+func (r *Result) MarkEnvLimit() {
+	if n := len(r.Violations); n > 0 {
+		r.Violations[n-1].EnvLimit = true
+	}
 }
 
 // Result is what a case reports back.
@@ -161,6 +172,22 @@ func RunCase(chk *Check, seed int64, tier string, idx int, verbose bool) (res *R
 		}
 		res.Idx = idx
 		res.WallMS = time.Since(start).Milliseconds()
+		// reports raised behind an environment limit are not verdicts
+		if len(res.Violations) > 0 {
+			keep := res.Violations[:0]
+			dropped := 0
+			for _, v := range res.Violations {
+				if v.EnvLimit {
+					dropped++
+					continue
+				}
+				keep = append(keep, v)
+			}
+			res.Violations = keep
+			if dropped > 0 && len(keep) == 0 {
+				res.Status, res.Note = Inconclusive, "simulated-device-limit"
+			}
+		}
 		if res.Status == "" {
 			res.Status = Held
 		}
